@@ -167,6 +167,13 @@ def finishOp (s : St) : Except (String × String) St := do
       match specConn s c acc with
       | .error m => throw ("spec", m)
       | .ok _ => pure { s with op := [], tags := s!"connect.{kind}" :: s.tags }
+  | ["connectvia", c, _, _, _] =>
+    if s.opAddrs.isEmpty then pure { s with op := [] }
+    else
+      -- the acceptor's own LocalAddress may be a wildcard here: only the two ends are compared
+      match specConn s c "" with
+      | .error m => throw ("spec", m)
+      | .ok _ => pure { s with op := [], tags := "connectvia" :: s.tags }
   | ["cmpall"] =>
     match specTrans s with
     | .error m => throw ("spec", m)
@@ -176,6 +183,7 @@ def finishOp (s : St) : Except (String × String) St := do
 def provOf (op : List String) : String :=
   match op with
   | [k, _, kind, _] => if k = "udp" ∨ k = "acceptor" ∨ k = "connect" then s!"{k}.{kind}" else k
+  | ["connectvia", _, kind, _, _] => s!"connect.{kind}"
   | k :: _ => k
   | [] => "?"
 
